@@ -1499,6 +1499,23 @@ class AggregateFunction(Function):
         self._include_filter = True
         self._filters = [*self._filters, *filters]
 
+    @builder
+    def replace_table(  # type:ignore[return]
+        self, current_table: "Table" | None, new_table: "Table" | None
+    ) -> "Self":
+        """
+        Replaces all occurrences of the specified table with the new table. Useful when reusing fields across queries.
+
+        :param current_table:
+            The table to be replaced.
+        :param new_table:
+            The table to replace with.
+        :return:
+            A copy of the term with the tables replaced.
+        """
+        self.args = [param.replace_table(current_table, new_table) for param in self.args]
+        self._filters = [f.replace_table(current_table, new_table) for f in self._filters]
+
     def get_filter_sql(self, ctx: SqlContext) -> str:  # type:ignore[return]
         if self._include_filter:
             criterions = Criterion.all(self._filters).get_sql(ctx)  # type:ignore[attr-defined]
@@ -1536,6 +1553,31 @@ class AnalyticFunction(AggregateFunction):
     def orderby(self, *terms: Any, **kwargs: Any) -> "Self":  # type:ignore[return]
         self._include_over = True
         self._orderbys = [*self._orderbys, *((term, kwargs.get("order")) for term in terms)]
+
+    @builder
+    def replace_table(  # type:ignore[return]
+        self, current_table: "Table" | None, new_table: "Table" | None
+    ) -> "Self":
+        """
+        Replaces all occurrences of the specified table with the new table. Useful when reusing fields across queries.
+
+        :param current_table:
+            The table to be replaced.
+        :param new_table:
+            The table to replace with.
+        :return:
+            A copy of the term with the tables replaced.
+        """
+        self.args = [param.replace_table(current_table, new_table) for param in self.args]
+        self._filters = [f.replace_table(current_table, new_table) for f in self._filters]
+        self._partition = [
+            p.replace_table(current_table, new_table) if hasattr(p, "replace_table") else p
+            for p in self._partition
+        ]
+        self._orderbys = [
+            (field.replace_table(current_table, new_table), orient)
+            for field, orient in self._orderbys
+        ]
 
     def _orderby_field(self, field: Field, orient: Order | None, ctx: SqlContext) -> str:
         if orient is None:
